@@ -32,6 +32,7 @@ RULE = ('solvers {cg, cr, cgne, cgnr, bicgstab, steepest_descent, minimal_residu
         'Non-trivial: at least one iteration; distinct = distinct (solver, system, options).')
 RULE += (' '
          'Also: each call repeated with only a callback, only a history list, and neither (same x, status, callbacks, history); fixed ill-conditioned probe (cond 1e8, tol 1e-12): status 0 must survive recomputation of the residual.')
+THOROUGH_ROUNDS = 5
 TRUSTED = ['NumPy/SciPy linear algebra on the oracle side', 'determinism of the solvers for identical inputs']
 PARTIAL = ['GMRES family: the stagnation exit (-1) is an input of the control model, not derived; Arnoldi / Givens numerics are C07']
 REFUTED = ['C06_gmres_count_after_test_refuted (fgmres as found, F23; repaired by a fix: commit)', 'C06_converged_guess_without_early_exit_refuted (steepest_descent as found; repaired by a fix: commit)']
